@@ -110,6 +110,7 @@ package tars
 //@   ensures [C15] (!c.closed && old(c.status) && old(c.lastFailCount) >= fainN && c.gnow - old(c.lastSuccessTime) >= failInterval) ==> (!c.status && firstTime)
 //@   ensures [C15] needCheck ==> (!old(c.status) && c.gnow - old(c.lastBlockTime) >= tryTimeInterval && c.lastBlockTime == c.gnow)
 //@   ensures [C15] !old(c.status) ==> (!c.status && !firstTime)
+//@   ensures [C15] c.lastBlockTime >= 0
 //@   safety [C15]
 //
 // ------------------------------------------------------------------ client side: request ids (property C08)
@@ -286,3 +287,31 @@ package tars
 //@   allocates
 //@   ensures [C15] (!old(e.directProxy) && len(old(e.activeEpf)) > 0 && !result1) ==> result0 != nil
 //@   ensures [C15] (old(e.directProxy) && len(old(e.activeEp)) == 0) ==> result0 == nil
+//
+// ------------------------------------------------------------------ taking endpoints out of rotation (property C15)
+// checkStatus removes an endpoint from the rotation (the three selectors and the active list) only when
+// checkActive has just blocked it, and checkActive blocks only with at least overN (2) failures recorded; an
+// adapter is queued for probing only when checkActive asks for a probe. Sequential reading of the sync.Maps.
+//
+//@ pred healthOK(a) = a != nil && a.tarsClient != nil && a.lastFailCount <= a.failCount && a.lastSuccessTime >= 0 && a.lastBlockTime >= 0 && a.lastCheckTime >= 0
+//@ pred epListHealthy(e) = forall k: iface {select(e.epList.val, k)} :: select(e.epList.dom, k) ==> (istype(select(e.epList.val, k), "*AdapterProxy") && healthOK(cast(select(e.epList.val, k), "*AdapterProxy")))
+//
+//@ func (*AdapterProxy).doKeepAlive
+//@   trusted
+//@   requires c != nil
+//@   modifies c.lastKeepAliveTime
+//@   allocates
+//
+//@ func (*endpointManager).checkStatus
+//@   requires e != nil && e.comm != nil && e.comm.Client != nil && epListHealthy(e)
+//@   requires e.activeEpRoundRobin != nil && e.activeEpConHash != nil && e.activeEpModHash != nil
+//@   noframe
+//@   allocates
+//@   site Remove#0 assert [C15] firstTime && !adp.status && adp.failCount >= overN
+//@   site Remove#1 assert [C15] firstTime && !adp.status && adp.failCount >= overN
+//@   site Remove#2 assert [C15] firstTime && !adp.status && adp.failCount >= overN
+//@   site Store#0 assert [C15] needCheck && !adp.status
+//@   loop 0 invariant e != nil && e.comm != nil && e.comm.Client != nil && epListHealthy(e) && e.activeEpRoundRobin != nil && e.activeEpConHash != nil && e.activeEpModHash != nil
+//@   loop 1 invariant e != nil && e.comm != nil && e.comm.Client != nil && epListHealthy(e) && e.activeEpRoundRobin != nil && e.activeEpConHash != nil && e.activeEpModHash != nil && adp != nil && firstTime && !adp.status && adp.failCount >= overN
+//@   loop 0 modifies everything
+//@   loop 1 modifies everything
